@@ -281,7 +281,8 @@ class BaseClient:
         """Generate a unique identifier for an ACK packet."""
         namespace = namespace or '/'
         if namespace not in self.callbacks:
-            self.callbacks[namespace] = {_ack_counter: itertools.count(1)}
+            self.callbacks.setdefault(
+                namespace, {_ack_counter: itertools.count(1)})
         id = next(self.callbacks[namespace][_ack_counter])
         self.callbacks[namespace][id] = callback
         return id
